@@ -114,6 +114,10 @@ func (vc *VC) call(ins *ssa.Call) {
 	if !c.IsInvoke() && len(c.Args) > 0 && c.StaticCallee() != nil && c.Signature().Recv() != nil {
 		vc.guardedUse(c.Args[0], ins.Pos(), "method-call")
 	}
+	if fn := vc.inlineTarget(c); fn != nil {
+		vc.inlineCall(ins, fn)
+		return
+	}
 	ci := vc.mkCallInfo(c, ins, ins, "call")
 	res := vc.applyCall(ci)
 	vc.bindResults(ins, res)
@@ -508,48 +512,51 @@ func (vc *VC) tryTrBool(e Expr, env *specEnv, c *Clause) (g string, ok bool) {
 // source (block index, instruction) order, so that "site f#2" does not depend on the processing order.
 func (vc *VC) ordinalOf(ins ssa.Instruction, name string) int {
 	if vc.staticOrd == nil {
-		vc.staticOrd = map[ssa.Instruction]int{}
+		vc.staticOrd = map[ordKey]int{}
 		counts := map[string]int{}
-		for _, b := range vc.fn.Blocks {
-			for _, x := range b.Instrs {
-				var n string
-				switch x := x.(type) {
-				case ssa.CallInstruction:
-					c := x.Common()
-					if bi, isB := c.Value.(*ssa.Builtin); isB {
-						if bi.Name() == "append" || bi.Name() == "delete" {
-							counts[bi.Name()]++
-							vc.staticOrd[x] = counts[bi.Name()]
-						}
-						continue
+		vc.walkInstrs(vc.fn, "", 0, nil, func(x ssa.Instruction, path string) {
+			var n string
+			switch x := x.(type) {
+			case ssa.CallInstruction:
+				c := x.Common()
+				if bi, isB := c.Value.(*ssa.Builtin); isB {
+					if bi.Name() == "append" || bi.Name() == "delete" {
+						counts[bi.Name()]++
+						vc.staticOrd[ordKey{x, path}] = counts[bi.Name()]
 					}
-					n, _ = vc.calleeName(c)
-					if mc, ok := c.Value.(*ssa.MakeClosure); ok {
-						n = CanonName(mc.Fn.(*ssa.Function))
-					}
-					if _, isDefer := x.(*ssa.Defer); isDefer {
-						n = "defer:" + n
-					}
-				case *ssa.UnOp:
-					if x.Op != token.ARROW {
-						continue
-					}
-					n = "recv"
-				case *ssa.Send:
-					n = "send"
-				default:
-					continue
+					return
 				}
-				counts[n]++
-				vc.staticOrd[x] = counts[n]
+				n, _ = vc.calleeName(c)
+				if mc, ok := c.Value.(*ssa.MakeClosure); ok {
+					n = CanonName(mc.Fn.(*ssa.Function))
+				}
+				if _, isDefer := x.(*ssa.Defer); isDefer {
+					n = "defer:" + n
+				}
+			case *ssa.UnOp:
+				if x.Op != token.ARROW {
+					return
+				}
+				n = "recv"
+			case *ssa.Send:
+				n = "send"
+			default:
+				return
 			}
-		}
+			counts[n]++
+			vc.staticOrd[ordKey{x, path}] = counts[n]
+		})
 	}
-	if o, ok := vc.staticOrd[ins]; ok {
+	if o, ok := vc.staticOrd[ordKey{ins, vc.inlPath()}]; ok {
 		return o
 	}
 	vc.callOrd[name]++
 	return vc.callOrd[name]
+}
+
+type ordKey struct {
+	ins  ssa.Instruction
+	path string
 }
 
 func sortOfKey(m keyMeta) string {
